@@ -908,7 +908,10 @@ _m("C16", "Proved for EVERY type environment, type descriptor and datum of the s
           "Value::from_serde_json and the float PRINTERS are MODELLED CONTRACTS (transcriptions / section variables with explicit "
           "premises) validated by the run: the run feeds the model the spellings the printers actually produced and checks every "
           "premise on them (hyp=1), and also hands from_value 20k ill-typed edits of serialized values.",
-   "No axioms (Flocq is used for executable definitions only). Floats are bit patterns; the printers enter the theorems as explicit "
+   "The structural theorems are axiom-free; the theorems about the binary32 reference (C16_nearest_single_correct: sgl is the IEEE-754 "
+   "round-to-nearest-even binary32 of the exact decimal; C16_sgl_spelling; C16_f32_printer_round_trips: the reference shortest-digits "
+   "printer reads back to the same bit pattern for every finite f32) depend on Flocq's theorems, i.e. on the four standard-library axioms. "
+   "Floats are bit patterns; the printers enter the theorems as explicit "
    "premises (the spelling of a finite float reads back, correctly rounded, as that float; serde_json floats are non-integer-spelled), "
    "each re-checked by the run on every recorded spelling and on samples inside Coq.",
    "Coq proof (nested induction on the datum, generalised over type and fuel; sorted-insertion lemmas for the serde_json side) + "
